@@ -570,6 +570,28 @@ func (s *session) recvOne() {
 	s.log(map[string]interface{}{"ev": "Recv", "id": k, "r": r})
 }
 
+// prefixOK: what the client received so far is a prefix of the session's
+// messages in id order (used only to stop draining once the outcome is
+// decided; the verdict is computed by the check from the raw data).
+func (s *session) prefixOK() bool {
+	i := 0
+	for k, b := range s.batches {
+		for r, a := range b {
+			if a != 1 {
+				continue
+			}
+			if i >= len(s.delivered) {
+				return true
+			}
+			if s.delivered[i] != [2]int64{int64(k + 1), int64(r + 1)} {
+				return false
+			}
+			i++
+		}
+	}
+	return i >= len(s.delivered)
+}
+
 func (s *session) logReconnect(n int) {
 	k, r := int64(0), int64(0)
 	if s.clast.Id != 0 {
@@ -814,6 +836,7 @@ func runProgram(g *rig, p *program) (res *result) {
 		}
 		var lastBO *[2]robust.Id
 		sameBO := 0
+		handed := map[robust.Id]int{}
 		for i := 0; ; i++ {
 			if i > 200 {
 				return fail(fmt.Errorf("drain did not reach quiescence in 200 rounds"))
@@ -833,9 +856,28 @@ func runProgram(g *rig, p *program) (res *result) {
 				if len(s.wire) == 0 {
 					s.wire = append(s.wire, r.arrived[0]...)
 					r.arrived = r.arrived[1:]
+					// the stream is static now: GetNext results must increase;
+					// a reader handing over the same batch again and again
+					// (lastSeen does not advance) never gets any further
+					if len(s.wire) > 0 {
+						handed[s.wire[0].Id]++
+						if handed[s.wire[0].Id] >= 3 {
+							res.Livelock = fmt.Sprintf("batch starting at %v handed over 3 times while node %d is static with all %d batches",
+								s.wire[0].Id, n+1, len(s.batches))
+							s.log(map[string]interface{}{"ev": "Livelock"})
+							break
+						}
+					}
 				}
 				for len(s.wire) > 0 {
 					s.recvOne()
+				}
+				if !s.prefixOK() {
+					// outcome decided (duplicate / gap / foreign message)
+					if err := disconnect(); err != nil {
+						return fail(err)
+					}
+					return res
 				}
 				continue
 			}
@@ -1047,6 +1089,10 @@ func runRandom(g *rig, id int, seed int64, maxK, maxRep int) (res *result) {
 			}
 		}
 		r.arrived = nil
+		if !s.prefixOK() {
+			stop(r)
+			break
+		}
 		if st == "blocked" {
 			// everything handed over before has been consumed; double-check
 			ok, err := probeBlocked(r, g)
@@ -1060,9 +1106,11 @@ func runRandom(g *rig, id int, seed int64, maxK, maxRep int) (res *result) {
 			}
 		}
 	}
-	s.log(map[string]interface{}{"ev": "Quiescent"})
-	res.Complete = true
-	stop(r)
+	if s.prefixOK() {
+		s.log(map[string]interface{}{"ev": "Quiescent"})
+		res.Complete = true
+		stop(r)
+	}
 	for _, rd := range readers {
 		select {
 		case <-rd.done:
